@@ -10,7 +10,7 @@ RULE = (
     "issuable at different times, 1-4 batch kinds, errors, try/except (handlers that yield new sub-tasks), contexts, "
     "shared tasks, re-yielded futures, and - with several kinds - flush bodies that raise after serving 0-2 items (the tasks that receive the flush error become runnable and may request other kinds); all get_priority() policies. In-run probe inside on_before_batch_flush: every "
     "task reachable from the awaited root has started, none is runnable (all futures of its pending yield computed), "
-    "and each blocks only on tasks or unflushed items. Single-kind programs additionally: the sequence of flushed item "
+    "and each blocks only on tasks or unflushed items; at every task step and before every flush all pending batches are looked at (is_cancelled, is_flushed, is_empty, str) and must stay exactly as they were. Single-kind programs additionally: the sequence of flushed item "
     "sets equals the rounds of an independent round-based simulator (flush count = critical path). "
     "(b) balanced trees (up to 4096 leaves: exactly 1 flush with every leaf request) and chains of n sequentially "
     "dependent requests (exactly n flushes of 1 item). distinct = program hash; non-trivial = at least 2 tasks and 1 flush."
@@ -36,7 +36,7 @@ PROFILES = [
     gen.profile(kinds=3, p_flush_fault=0.2, **dict(BASE, w_leaf=dict(BASE["w_leaf"], dbg=0.6))),
     gen.profile(kinds=4, p_flush_fault=0.2, **BASE),
 ]
-MONITORS = ("quiescence", "refeq", "resume")
+MONITORS = ("quiescence", "refeq", "resume", "peek")
 HOWS = ["call", "value", "yielded", "yielded_value"]
 SHAPES_QUICK = [("tree", 2, 6), ("tree", 4, 4), ("tree", 3, 5), ("tree", 2, 11), ("chain", 1, 40), ("chain", 1, 400), ("treechain", 3, 4)]
 SHAPES_THOROUGH = SHAPES_QUICK + [("tree", 2, 12), ("tree", 8, 4), ("tree", 5, 5), ("chain", 1, 1500), ("treechain", 4, 5), ("treechain", 2, 9)]
